@@ -106,8 +106,12 @@ def _body_pc(K, N, which, biased=False, labels="int"):
             mono = _poly(z3, ps, n)
             lhs = lhs + _rv(z3, w * val) * mono
             if which == "varpc_n":
+                # ONE count array handed to pc_n and then to varpc_n, as a caller holding its counts in an array would do
+                import numpy as _np
+                shared = _np.array([Fraction(int(c)) for c in n], dtype=object)
+                val = Fraction(stats.pc_n(shared))
                 lhs_sq = lhs_sq + _rv(z3, w * val * val) * mono
-                lhs_var = lhs_var + _rv(z3, w * _exact(stats.varpc_n, n)) * mono
+                lhs_var = lhs_var + _rv(z3, w * Fraction(stats.varpc_n(shared))) * mono
         def power(b, e):
             r = z3.RealVal(1)
             for _ in range(e):
@@ -176,8 +180,11 @@ def _replay_identity(K, N, which, labels="int"):
             w = multinom(n)
             lhs += w * val * mono
             if which == "varpc_n":
+                import numpy as _np
+                shared = _np.array([Fraction(int(c)) for c in n], dtype=object)          # exact arithmetic through the real NumPy
+                val = Fraction(stats.pc_n(shared))
                 lhs_sq += w * val * val * mono
-                lhs_var += w * _exact(stats.varpc_n, n) * mono
+                lhs_var += w * Fraction(stats.varpc_n(shared)) * mono
         if which == "varpc_n":
             ok = lhs_var == lhs_sq - S2 * S2 * S1 ** (N - 4)
             return ok, f"K={K} N={N} p={ps}: E[varpc_n]={lhs_var} but Var(pc)={lhs_sq - S2 * S2 * S1 ** (N - 4)}"
